@@ -654,6 +654,93 @@ theorem ks_cdf_partial (d : R) (h1 : 1 / 2 ≤ d.val) (h2 : d.val < 1) :
 example : ∃ d : R, 1 / 2 ≤ d.val ∧ d.val < 1 := ⟨⟨0.7⟩, by norm_num, by norm_num⟩
 
 
+/-! ## 8. `from_params`, exchange of the samples (round 2) -/
+
+-- @site Empirical::from_params
+/-- `Parameterized::from_params(p)` IS `Empirical::new(p.xs)` (empirical.rs:60-62): the parameter vector is sorted again and the
+    range recomputed, whatever order the caller left `p.xs` in -/
+theorem empirical_from_params_eq_new (p : Gen.EmpiricalParameters R) :
+    Hand.Empirical.fromParams? p = Hand.Empirical.new? p.xs := rfl
+
+-- @site Empirical::from_params
+/-- hence the rebuilt object — and with it `cdf`, `empcdfs`, `pp`, `err`, `mean`, `variance`, `range`, `draw` — depends only on the
+    multiset of the parameter vector -/
+theorem empirical_from_params_perm (xs ys : List R) (h : xs.Perm ys) :
+    Hand.Empirical.fromParams? { xs := xs } = Hand.Empirical.fromParams? { xs := ys } := by
+  unfold Hand.Empirical.fromParams? Hand.Empirical.new?
+  simp only []
+  rw [sortR_eq_of_perm h]
+
+-- @site Empirical::from_params
+/-- `from_params` on any rearrangement of a sample is the object `new` builds from the sample -/
+theorem empirical_from_params_any_order (xs ys : List R) (h : xs.Perm ys) (e : Gen.Empirical R)
+    (he : Hand.Empirical.new? xs = some e) : Hand.Empirical.fromParams? { xs := ys } = some e := by
+  rw [← empirical_from_params_perm xs ys h]; exact he
+
+-- @site Empirical::from_params
+/-- `from_params(emit_params(e)) = e` for every constructed `e` -/
+theorem empirical_emit_from_params_roundtrip (xs : List R) (e : Gen.Empirical R) (he : Hand.Empirical.new? xs = some e) :
+    Hand.Empirical.fromParams? (Gen.Empirical.emit_params e) = some e := by
+  have hxs := (new?_some he).1
+  have hid : Hand.sortR (Hand.sortR xs) = Hand.sortR xs := sortR_of_sorted (sortR_sorted xs)
+  unfold Hand.Empirical.fromParams? Gen.Empirical.emit_params
+  simp only [hxs]
+  unfold Hand.Empirical.new? at he ⊢
+  simp only [] at he ⊢
+  rw [hid]
+  exact he
+
+-- @site ks_two_sample
+/-- exchanging the samples exchanges the two one-sided statistics, exactly, for every admissible search function:
+    `D⁻(xs, ys) = D⁺(ys, xs)` -/
+theorem ks_two_sample_stat_symmetry (bs : List R → R → Bool × Nat) (xs ys : List R) :
+    Hand.ksTwoStat bs xs ys .less = Hand.ksTwoStat bs ys xs .greater ∧
+    Hand.ksTwoStat bs xs ys .greater = Hand.ksTwoStat bs ys xs .less := by
+  unfold Hand.ksTwoStat
+  exact ⟨R.ext' (ksTwoStatSorted_swap bs _ _).1, R.ext' (ksTwoStatSorted_swap bs _ _).2⟩
+
+-- @site ks_two_sample
+/-- `ks_two_sample(xs, ys, Asymptotic, Less) = ks_two_sample(ys, xs, Asymptotic, Greater)` (statistic and p-value): the one-sided
+    asymptotic branch only sees `max(n_x, n_y)` and `min(n_x, n_y)` (ks.rs:245-246) -/
+theorem ks_two_sample_asymptotic_symmetry (bs : List R → R → Bool × Nat) (M : Nat) (xs ys : List R) :
+    Hand.ksTwoSampleWith bs M xs ys .asymptotic .less = Hand.ksTwoSampleWith bs M ys xs .asymptotic .greater ∧
+    Hand.ksTwoSampleWith bs M xs ys .asymptotic .greater = Hand.ksTwoSampleWith bs M ys xs .asymptotic .less := by
+  unfold Hand.ksTwoSampleWith
+  by_cases h : xs.length = 0 ∨ ys.length = 0
+  · have h' : ys.length = 0 ∨ xs.length = 0 := h.symm
+    simp only [h, h', if_true, and_self]
+  · have h' : ¬ (ys.length = 0 ∨ xs.length = 0) := fun c => h c.symm
+    simp only [h, h', if_false]
+    rw [(ks_two_sample_stat_symmetry bs xs ys).1, (ks_two_sample_stat_symmetry bs xs ys).2]
+    simp only [Hand.ksTwoAsymp, Nat.max_comm ys.length xs.length, Nat.min_comm ys.length xs.length, and_self]
+
+-- @site ks_two_sample
+/-- the one-sided asymptotic p-value is Hodges' (1958) approximation `exp(−2z² − 2z(m + 2n)/(3√(mn(m+n))))`, `z = √(mn/(m+n))·D`,
+    with `m` the LARGER and `n` the smaller sample size (argument mapping only; the quality of the approximation is not a theorem) -/
+theorem ks_two_sample_asymptotic_onesided_formula (nx ny : Nat) (stat : R) (alt : Hand.KsAlternative) (ha : alt ≠ .twoSided) :
+    (Hand.ksTwoAsymp nx ny stat alt).1 = stat ∧
+    (Hand.ksTwoAsymp nx ny stat alt).2.val =
+      Real.exp (-2 * (Real.sqrt ((Nat.max nx ny : ℝ) * (Nat.min nx ny : ℝ) / ((Nat.max nx ny : ℝ) + (Nat.min nx ny : ℝ))) * stat.val) ^ 2
+        - 2 * (Real.sqrt ((Nat.max nx ny : ℝ) * (Nat.min nx ny : ℝ) / ((Nat.max nx ny : ℝ) + (Nat.min nx ny : ℝ))) * stat.val)
+            * ((Nat.max nx ny : ℝ) + 2 * (Nat.min nx ny : ℝ))
+            / Real.sqrt ((Nat.max nx ny : ℝ) * (Nat.min nx ny : ℝ) * ((Nat.max nx ny : ℝ) + (Nat.min nx ny : ℝ))) / 3) := by
+  cases alt with
+  | twoSided => exact absurd rfl ha
+  | less =>
+    refine ⟨rfl, ?_⟩
+    simp only [Hand.ksTwoAsymp, mulAdd, R.exp_val, R.add_val, R.mul_val, R.div_val, R.neg_val, R.sqrt_val, R.ofNatR_val, R.sci_val]
+    congr 1
+    norm_num
+    ring
+  | greater =>
+    refine ⟨rfl, ?_⟩
+    simp only [Hand.ksTwoAsymp, mulAdd, R.exp_val, R.add_val, R.mul_val, R.div_val, R.neg_val, R.sqrt_val, R.ofNatR_val, R.sci_val]
+    congr 1
+    norm_num
+    ring
+
+example : ([(2.5 : R), (0.5 : R)]).Perm [(0.5 : R), (2.5 : R)] := List.Perm.swap _ _ _
+
 end C20
 
 #print axioms C20.ksStat_formula
@@ -696,3 +783,10 @@ end C20
 #print axioms C20.ks_cdf_partial
 #print axioms C20.ksD_is_sup_partial
 #print axioms C20.ks_two_sample_ties_counterexample
+#print axioms C20.empirical_from_params_eq_new
+#print axioms C20.empirical_from_params_perm
+#print axioms C20.empirical_from_params_any_order
+#print axioms C20.empirical_emit_from_params_roundtrip
+#print axioms C20.ks_two_sample_stat_symmetry
+#print axioms C20.ks_two_sample_asymptotic_symmetry
+#print axioms C20.ks_two_sample_asymptotic_onesided_formula
